@@ -3,6 +3,9 @@ package mon
 import (
 	"fmt"
 	"math/big"
+	"time"
+
+	sdk "github.com/cosmos/cosmos-sdk/types"
 
 	markettypes "github.com/regen-network/regen-ledger/x/ecocredit/v3/marketplace/types/v1"
 
@@ -42,6 +45,15 @@ func (m *C06) AfterMsg(w *eng.World, st *eng.MsgStep) {
 				w.Violation("C06", "sell-denom-not-allowed", "accepted Sell order[%d] asks in %s which is not an allowed denom", i, o.AskPrice.Denom)
 			}
 		}
+		// the stored orders are what the seller stated
+		if resp, ok := st.Res.RespMsg.(*markettypes.MsgSellResponse); ok && len(resp.SellOrderIds) == len(msg.Orders) {
+			seller, _ := sdk.AccAddressFromBech32(msg.Seller)
+			for i, id := range resp.SellOrderIds {
+				m.orderMatches(w, st.Post, "Sell", id, seller, msg.Orders[i].BatchDenom, msg.Orders[i].Quantity, msg.Orders[i].AskPrice, msg.Orders[i].DisableAutoRetire, msg.Orders[i].Expiration, true)
+			}
+		} else {
+			w.Violation("C06", "sell-response-wrong", "Sell of %d orders returned %v", len(msg.Orders), st.Res.RespMsg)
+		}
 	case *markettypes.MsgUpdateSellOrders:
 		for i, u := range msg.Updates {
 			if u.NewAskPrice != nil && !allowed[u.NewAskPrice.Denom] {
@@ -51,6 +63,31 @@ func (m *C06) AfterMsg(w *eng.World, st *eng.MsgStep) {
 				m.updateAfterPartialFill = true
 			}
 			m.updated[u.SellOrderId] = true
+		}
+		// the last update of each order in the message is what is stored afterwards
+		last := map[uint64]*markettypes.MsgUpdateSellOrders_Update{}
+		lastExp := map[uint64]*time.Time{}
+		for _, u := range msg.Updates {
+			last[u.SellOrderId] = u
+			if u.NewExpiration != nil {
+				lastExp[u.SellOrderId] = u.NewExpiration
+			}
+		}
+		for id, u := range last {
+			pre := st.Pre.OrderByID(id)
+			if pre == nil {
+				continue
+			}
+			exp := lastExp[id] // an update without expiration keeps the current one
+			if exp == nil && pre.Expiration != nil {
+				t := pre.Expiration.AsTime()
+				exp = &t
+			}
+			den := ""
+			if b := st.Pre.BatchByKey(pre.BatchKey); b != nil {
+				den = b.Denom
+			}
+			m.orderMatches(w, st.Post, "UpdateSellOrders", id, pre.Seller, den, u.NewQuantity, u.NewAskPrice, u.DisableAutoRetire, exp, true)
 		}
 	case *markettypes.MsgBuyDirect:
 		for _, o := range msg.Orders {
@@ -116,6 +153,41 @@ func (m *C06) check(w *eng.World, s *snap.Snap, where string) {
 		if !seen[k] && v.Sign() != 0 {
 			w.Violation("C06", "orders-without-balance-row", "%s: open orders of %s sum to %s but there is no balance row", where, k, ref.RatString(v))
 		}
+	}
+}
+
+// orderMatches: the stored order carries exactly the stated seller, batch, quantity (as a
+// number), ask denom and amount, auto-retire flag and expiration.
+func (m *C06) orderMatches(w *eng.World, s *snap.Snap, what string, id uint64, seller []byte, batchDenom, qty string, ask *sdk.Coin, dar bool, exp *time.Time, _ bool) {
+	o := s.OrderByID(id)
+	if o == nil {
+		w.Violation("C06", "order-not-stored", "%s accepted but order %d is not in state", what, id)
+		return
+	}
+	b := s.BatchByKey(o.BatchKey)
+	mk := s.MarketByID(o.MarketId)
+	q, ok := ref.ParseRat(qty)
+	bad := ""
+	switch {
+	case string(o.Seller) != string(seller):
+		bad = "seller"
+	case b == nil || b.Denom != batchDenom:
+		bad = "batch"
+	case !ok || ref.MustRat(o.Quantity).Cmp(q) != 0:
+		bad = "quantity"
+	case mk == nil || ask == nil || mk.BankDenom != ask.Denom:
+		bad = "ask denom"
+	case o.AskAmount != ask.Amount.String():
+		bad = "ask amount"
+	case o.DisableAutoRetire != dar:
+		bad = "disable_auto_retire"
+	case (o.Expiration == nil) != (exp == nil) || (exp != nil && !o.Expiration.AsTime().Equal(*exp)):
+		bad = "expiration"
+	case mk != nil && b != nil && s.ClassOfBatch(b) != nil && mk.CreditTypeAbbrev != s.ClassOfBatch(b).CreditTypeAbbrev:
+		bad = "market credit type"
+	}
+	if bad != "" {
+		w.Violation("C06", "stored-order-differs-from-message/"+bad, "%s: order %d stored as %v (market %v) but the message states batch %s quantity %s ask %v disable_auto_retire %v expiration %v", what, id, o, mk, batchDenom, qty, ask, dar, exp)
 	}
 }
 
